@@ -452,7 +452,8 @@ MANIFEST = {
             "evaluation's flags, temperatures inside the tabulated ranges, label by side of vJ; "
             "runaway => negative pressure at the top and no velocity; failure => ERROR label; the "
             "deflagration window is [vMin, min(vJ, fastestDeflag)]; a second solveWall on the same "
-            "object (also after a failed run / other calls) repeats the same evaluations.",
+            "object (also after a failed run / other calls) repeats the same evaluations."
+            " The root-finder stub evaluates another point after the root, so \"components come from the final evaluation at the returned velocity\" requires the code to evaluate at the root itself.",
     "note": "wallPressure itself (tanh fit, plasma profile, Boltzmann loop) is a stub here; its "
             "pieces are C04/C09/C12/C13. Manager-level construction is not executed (needs model "
             "files); manager.setupWallSolver/buildGrid/buildEOM construction is executed on "
